@@ -38,17 +38,27 @@ mod time {
         pub fn new(date: Date, time: Time) -> (r: PrimitiveDateTime) ensures r.utc_nanos() == civil_nanos(date, time) { unimplemented!() }
     }
     pub uninterp spec fn civil_nanos(date: Date, time: Time) -> int;
+    pub uninterp spec fn clock_nanos() -> int;
+    pub uninterp spec fn date_of(nanos: int) -> Date;
+    pub uninterp spec fn time_of(nanos: int) -> Time;
+    // ASSUMED of the `time` crate: splitting a UTC instant into (date, time of day) and putting the two back
+    // together gives the same instant
+    #[verifier::external_body]
+    pub proof fn axiom_date_time_round_trip(nanos: int)
+        ensures civil_nanos(date_of(nanos), time_of(nanos)) == nanos
+    {}
     impl OffsetDateTime {
         pub uninterp spec fn nanos(&self) -> int;
         #[verifier::external_body]
         pub fn unix_timestamp_nanos(self) -> (r: i128) ensures r == self.nanos() { unimplemented!() }
-        // the system clock: any value
+        // the system clock: ANY value, but one value per reading: `clock_nanos()` is what this call of now() reads
         #[verifier::external_body]
-        pub fn now_utc() -> (r: OffsetDateTime) { unimplemented!() }
+        pub fn now_utc() -> (r: OffsetDateTime) ensures r.nanos() == clock_nanos() { unimplemented!() }
+        // calendar date and time of day of a UTC instant
         #[verifier::external_body]
-        pub fn date(self) -> (r: Date) { unimplemented!() }
+        pub fn date(self) -> (r: Date) ensures r == date_of(self.nanos()) { unimplemented!() }
         #[verifier::external_body]
-        pub fn time(self) -> (r: Time) { unimplemented!() }
+        pub fn time(self) -> (r: Time) ensures r == time_of(self.nanos()) { unimplemented!() }
     }
 }
 
